@@ -61,18 +61,18 @@ func (m *module) done(data starlark.StringDict, err error) (starlark.StringDict,
 // wait waits for the receiver to finish loading. It returns an error if the module fails
 // to load or if the wait would result in a cyclic dependency.
 func (m *module) wait(waiter *module) (starlark.StringDict, error) {
-	m.m.Lock()
-	defer m.m.Unlock()
-
 	if waiter != nil {
-		loading := m.loading
-		for loading != nil {
+		// Follow the chain of modules that m is (transitively) waiting on. This must happen
+		// before m.m is taken: getLoading acquires the mutex of the module it is called on.
+		for loading := m.getLoading(); loading != nil; loading = loading.getLoading() {
 			if loading == waiter {
 				return nil, fmt.Errorf("cyclic dependency on %v", m.label)
 			}
-			loading = m.getLoading()
 		}
 	}
+
+	m.m.Lock()
+	defer m.m.Unlock()
 
 	for !m.loaded {
 		m.cond.Wait()
